@@ -11,10 +11,13 @@ def parseItem (t : String) : Option ReadAns :=
       | some (k+1) => some (.chunk k)
       | _ => none
   | ['e'] => some .eof
-  | ['x'] => some .err
+  | ['x'] => some (.err .eio)
+  | ['x', 'i'] => some (.err .eintr)
+  | ['x', 'a'] => some (.err .eagain)
   | _ => none
 
-/-- `osread n stream script`: the script is a comma list of read answers; an item `o` makes `open` fail -/
+/-- `osread n stream script`: the script is a comma list of read answers (`c<k>` = at most k bytes, `e` = end of file,
+    `x` / `xi` / `xa` = -1 with errno EIO / EINTR / EAGAIN); an item `o` makes `open` fail -/
 def parse : List String → Option (Bool × Nat × List UInt8 × List ReadAns)
   | ["osread", n, stream, script] => do
       let items := if script = "-" then [] else script.splitOn ","
